@@ -52,9 +52,12 @@ CHECKS.update({
               "recorded in 2^-20 fixed point and compared with the exact oracle value in two-limb integer arithmetic); "
               "Sat(3) with arbitrary recursion for the unnormalised identity. CKY.tla (incremental columns = inside weights, "
               "outside pass = weight of the one-token extension) and the closed form for deterministic right-linear proper "
-              "grammars are model-checked; the latter judges contexts of 40-1500 tokens on float-weighted grammars."),
+              "grammars are model-checked; the latter judges contexts of 40-1500 tokens on float-weighted grammars, including "
+              "contexts of probability below 1e-700 for the rescaled parser. Generation.tla models the sampling loop "
+              "(LM.sample) as a state machine (Factorisation, StaysViable, CondSumsToOne, Terminates); every complete "
+              "behaviour TLC finds is replayed into the real LM objects through a scripted draw and judged (SampleOK)."),
         ref="DESIGN.md section 6 (C04)",
-        technique="TLA+ models CKY.tla / MCGrammarSem.tla model-checked with TLC; trace validation of recorded LM calls against Grammars.tla"),
+        technique="TLA+ models CKY.tla / Generation.tla / MCGrammarSem.tla model-checked with TLC; TLC behaviours of Generation.tla replayed into LM.sample; trace validation of recorded LM calls against Grammars.tla"),
     "C05": dict(
         text=("ParserCache.tla (the cache of memoised prefixes as a state machine; PrefixClosed, OnlyClearForgets) is "
               "model-checked and its complete state graph (all histories over prefixes <= 2, both parser kinds) is walked "
